@@ -14,6 +14,40 @@ TITLE = 'C15: structure of the greedy spanner construction loop (partition, hop 
 RULES = {'R15a': 2, 'R15b': 2, 'R15c': 1, 'R05c': 1, 'R05d': 2, 'R15e': 10}
 
 
+def r15g(rep, prog):
+    """the hop counters of the bounded BFS are at least as wide as the hop bound: a counter narrower than `max_hops` wraps around before the
+    bound is reached (for k >= 128 with an 8-bit counter the level 256 becomes 0, the cut-off never fires and "within 2k-1 hops" degenerates to
+    "connected")"""
+    from .c17 import int_shape
+    n = 0
+    for fn in prog.fns('parmcb::is_bfs_reachable'):
+        if len(fn.param_ids) < 4:
+            continue
+        hw, _hs = int_shape(prog, prog.vars[fn.param_ids[3]]['ty'])
+        what = 'hop counters of is_bfs_reachable are as wide as the hop bound'
+        for d in fn.walk():
+            if d.k != 'VarDecl' or prog.vars[d.decl_id].get('kind') != 'local':
+                continue
+            t = prog.base_type(d.j.get('t')) or {}
+            if (t.get('rec') or '') not in ('std::vector', 'std::deque', 'std::array'):
+                continue
+            targs = [a for a in (t.get('targs') or []) if isinstance(a, int)]
+            if not targs:
+                continue
+            et = prog.base_type(targs[0]) or {}
+            if not et.get('int') or et.get('bool'):
+                continue
+            ew, _es = int_shape(prog, targs[0])
+            n += 1
+            if hw is not None and ew is not None and ew < hw:
+                rep.violation('R15g', d, fn, what, 'the per-vertex hop counters `%s` are %d bits wide, the bound is %d bits: for a bound of %d hops or more the '
+                              'counter wraps to 0 and the cut-off never fires (an edge is dropped although its endpoints are farther apart than 2k-1)' % (
+                                  prog.vars[d.decl_id]['name'], ew, hw, 2 ** ew - 1), key='R15g|%s|narrow-counter' % fn.g)
+            else:
+                rep.ok('R15g', d, fn, what, '%s: %s bits' % (prog.vars[d.decl_id]['name'], ew))
+    return n
+
+
 def r15f(rep, prog):
     """the bounded BFS answers `true` only for a vertex popped within the hop bound: either the `return true` is
     guarded by d_u <= max_hops for the popped vertex, or no vertex beyond the bound is ever queued"""
@@ -160,9 +194,11 @@ def r02h_bfs(rep):
 def run(rep, tier):
     c05.run_rules(rep, tier, list(RULES), RULES)
     rep.rule('R15f', 'bounded BFS answers true only within the hop bound', floor=1)
+    rep.rule('R15g', 'hop counters of the bounded BFS are as wide as the hop bound', floor=1)
     n = 0
     for prog in env.extract([env.witness_tu()], 'full').values():
         n += r15f(rep, prog)
+        r15g(rep, prog)
     if n == 0:
         rep.analysis_broken('parmcb::is_bfs_reachable is not instantiated (anchor vanished)')
     r02h_bfs(rep)
